@@ -181,7 +181,10 @@ class _RealFinder:
     def _find_parens_start(self, offset):
         offset = self._find_last_non_space_char(offset - 1)
         while offset >= 0 and self.code[offset] not in "[({":
-            if self.code[offset] not in ":,":
+            if self.code[max(offset - 2, 0) : offset + 1] == "...":
+                # an Ellipsis literal is an atom, not three attribute dots
+                offset -= 2
+            elif self.code[offset] not in ":,":
                 offset = self._find_primary_start(offset)
             offset = self._find_last_non_space_char(offset - 1)
         return offset
@@ -230,6 +233,9 @@ class _RealFinder:
         while offset > 0:
             prev = self._find_last_non_space_char(offset - 1)
             if offset <= 0 or self.code[prev] != ".":
+                break
+            if self.code[max(prev - 2, 0) : prev + 1] == "...":
+                # an Ellipsis literal in front of the primary, not an attribute dot
                 break
 
             # Check if relative import
